@@ -317,6 +317,11 @@ def check_delivery(col: Collector, key: str, con: str, rel: str, cmds: List[Cmd]
         last = seq[-1]
         col.add("C16.R6", con, f"last-step-delivers:{'&'.join(x[0][:18] + '=' + str(x[1]) for x in g[1:]) or 'always'}", mentions(last),
                 f"the last step on this run path is `{last.node.text()[:60]}`; it must be the delivery to $destination", f"{rel}:{last.node.line}")
+    # the delivery command is a plain copy: flags such as -n / -u / -i keep an existing (older) file at the destination
+    cmds_assigned = [v.strip('"\'') for v, c in assigns.get("cmd", [])]
+    col.add("C16.R6", con, "delivery-command-overwrites", bool(cmds_assigned) and all(v in ("cp", "xrdcp", "xrdcp -f", "cp -f") for v in cmds_assigned),
+            f"the copy command is one of {sorted(set(cmds_assigned))}: it must overwrite the destination (`cp -n` exits 0 and leaves the previous run's "
+            "ANALYSIS.root in place)", rel)
     # destination derives from $output_dir under output_method == cp
     dests = [(v, c) for v, c in assigns.get("destination", []) if has_guard(c, '[ $output_method == "cp" ]', True)]
     ok = bool(dests) and all(v in ("$output_dir", "$output_dir/ANALYSIS.root") for v, _ in dests)
